@@ -8,9 +8,11 @@ import (
 
 	"pgregory.net/rapid"
 
+	"github.com/pokt-network/pocket-core/app"
 	"github.com/pokt-network/pocket-core/crypto"
 	sdk "github.com/pokt-network/pocket-core/types"
 	authTypes "github.com/pokt-network/pocket-core/x/auth/types"
+	govTypes "github.com/pokt-network/pocket-core/x/gov/types"
 	nodesTypes "github.com/pokt-network/pocket-core/x/nodes/types"
 
 	"verif/harness"
@@ -27,7 +29,24 @@ import (
 //                                 because the message is a send whose outcome is observable from its result code).
 // ¬auth (or balance < fee)     ⇒ code != 0 and every balance unchanged.
 
-const requiredFee = int64(10000)
+const requiredFee = int64(10000) // base fee of every message type (Msg.GetFee)
+
+// feeModel is the harness's own reading of the auth/FeeMultipliers parameter: the first table entry whose key equals the
+// message type multiplies the base fee, otherwise the default multiplier does.
+type feeModel struct {
+	keys  []string
+	mults []int64
+	def   int64
+}
+
+func (m feeModel) required(msgType string) int64 {
+	for i, k := range m.keys {
+		if k == msgType {
+			return requiredFee * m.mults[i]
+		}
+	}
+	return requiredFee * m.def
+}
 
 type feeCase struct {
 	desc      string
@@ -39,11 +58,12 @@ type feeCase struct {
 	// onlyFeeTooLow: everything else about the tx is fine (signatures, memo, coin-set validity) but upokt < required
 	onlyFeeTooLow bool
 	multisig      bool
+	required      int64
 	to            sdk.Address
 	from          sdk.Address
 }
 
-func feeCoins(rt *rapid.T) (sdk.Coins, string, bool) {
+func feeCoins(rt *rapid.T, requiredFee int64) (sdk.Coins, string, bool) {
 	kind := rapid.SampledFrom([]string{"zero", "below", "equal", "above", "10x", "multiDenom", "otherDenomOnly", "invalidUnsorted", "invalidDup", "invalidZeroEntry", "empty"}).Draw(rt, "feeKind")
 	up := func(a int64) sdk.Coin { return sdk.Coin{Denom: sdk.DefaultStakeDenom, Amount: sdk.NewInt(a)} }
 	switch kind {
@@ -75,20 +95,60 @@ func feeCoins(rt *rapid.T) (sdk.Coins, string, bool) {
 
 func TestC15(t *testing.T) {
 	harness.Check(t, "C15",
-		"generated world; per case 6-14 send transactions each in its own block with generated fee (0, required-1, required, above, 10x, multi-denom, other denom, "+
+		"generated world, in half of the cases with the fee table (auth/FeeMultipliers: 1-3 entries over message types, default multiplier) replaced by a governance transaction first - the required fee is then "+
+			"the harness's own reading of that table for the message type; per case 6-14 send / edit-stake transactions each in its own block with generated fee (0, required-1, required, above, 10x, multi-denom, other denom, "+
 			"unsorted/duplicate/zero-entry/empty coin sets), signer kind (single key with/without pubkey in the signature, multisig complete / missing member / wrong order), "+
 			"signature validity (valid, other chain id, signed over another fee, garbage), memo length, payer balance around the fee, amount around the balance (handler fails after "+
 			"authentication). Oracle: model predicate auth (known by construction) decides: auth ∧ covers fee ⇒ payer -declared fee and collector +declared fee exactly once whatever "+
 			"the message result; otherwise code != 0 and no balance changes. non-trivial = authenticated tx whose message fails, or fee below required, or multisig signer",
-		map[string]float64{"auth-pass-handler-fail": 0.3, "fee-below-required": 0.3, "multisig": 0.4, "bad-signature": 0.3, "duplicate-in-same-block": 0.5},
+		map[string]float64{"auth-pass-handler-fail": 0.3, "fee-below-required": 0.3, "multisig": 0.4, "bad-signature": 0.3, "duplicate-in-same-block": 0.5,
+			"fee-table-changed": 0.3, "required-fee-from-fee-table": 0.2, "fee-decided-by-non-first-table-entry": 0.08},
 		func(rt *rapid.T, c *harness.Case) {
 			w := chain.GenWorld(rt)
 			c.Opf("%s", w.Describe())
 			n := chain.NewNode(&w.Spec)
 			collector := authTypes.NewModuleAddress(authTypes.FeeCollectorName)
+			// in half of the worlds governance has replaced the fee table (auth/FeeMultipliers) before the transactions arrive:
+			// 1-3 entries over the message types used here and elsewhere, multipliers 1-10, default multiplier 1-2
+			fm := feeModel{def: 1}
+			if rapid.Bool().Draw(rt, "feeTableChanged") {
+				ne := rapid.IntRange(1, 3).Draw(rt, "feeEntries")
+				tbl := authTypes.FeeMultipliers{Default: int64(rapid.IntRange(1, 2).Draw(rt, "feeDefault"))}
+				fm = feeModel{def: tbl.Default}
+				for i := 0; i < ne; i++ {
+					k := rapid.SampledFrom([]string{"send", "stake_validator", "begin_unstake_validator", "change_param", "send"}).Draw(rt, "feeKey")
+					mu := rapid.SampledFrom([]int64{1, 2, 3, 10}).Draw(rt, "feeMult")
+					tbl.FeeMultis = append(tbl.FeeMultis, authTypes.FeeMultiplier{Key: k, Multiplier: mu})
+					fm.keys, fm.mults = append(fm.keys, k), append(fm.mults, mu)
+				}
+				val, err := app.Codec().MarshalJSON(tbl)
+				if err != nil {
+					rt.Fatalf("harness: %v", err)
+				}
+				tx := chain.SignTx(w.Spec.ChainID, &govTypes.MsgChangeParam{FromAddress: chain.Addr(w.Spec.DAOOwner), ParamKey: "auth/FeeMultipliers", ParamVal: val}, chain.DefaultFee, "", w.NextEntropy(), w.Spec.DAOOwner)
+				br := n.RunBlock(chain.Block{DT: time.Second, Proposer: chain.Addr(w.Nodes[0]), Txs: [][]byte{tx}})
+				if len(br.Txs) != 1 || br.Txs[0].Code != 0 {
+					rt.Fatalf("harness: the fee table change was not accepted: %+v", br.Txs)
+				}
+				c.Opf("fee table := %v default x%d", tbl.FeeMultis, tbl.Default)
+				c.Label("fee-table-changed")
+				if fm.required("send") != requiredFee || fm.required("stake_validator") != requiredFee {
+					c.Label("fee-table-raises-a-used-message-type")
+				}
+				for _, t := range []string{"send", "stake_validator"} {
+					for i, k := range fm.keys {
+						if k == t {
+							if i > 0 {
+								c.Label("fee-decided-by-non-first-table-entry")
+							}
+							break
+						}
+					}
+				}
+			}
 			ntx := rapid.IntRange(6, 14).Draw(rt, "nTxs")
 			for i := 0; i < ntx; i++ {
-				fc := genFeeCase(rt, w, n, c)
+				fc := genFeeCase(rt, w, n, c, fm)
 				c.Opf("%s", fc.desc)
 				before := n.Accounts()
 				// each tx in its own block; the fee collector is emptied at the next BeginBlock, so measure inside the block
@@ -119,7 +179,7 @@ func TestC15(t *testing.T) {
 					// known shape (narrow): a fully and correctly signed MULTISIG tx whose only defect is a valid fee coin set
 					// below the required fee is not stopped by the ante handler (the fee threshold is only checked on the
 					// single-key branch). If listed as known, judge the rest of the tx as authenticated with its declared fee.
-					if c.Violation("C15/multisig/fee-below-required-accepted", "multisig tx with declared fee %s below the required %d was accepted (code=%d/%s, deltas %v): %s", fc.declared, requiredFee, r.Code, r.Codespace, diff, fc.desc) {
+					if c.Violation("C15/multisig/fee-below-required-accepted", "multisig tx with declared fee %s below the required %d was accepted (code=%d/%s, deltas %v): %s", fc.declared, fc.required, r.Code, r.Codespace, diff, fc.desc) {
 						authOK = true
 					}
 				}
@@ -205,12 +265,7 @@ func sameDiff(a, b map[string]sdk.BigInt) bool {
 	return true
 }
 
-func genFeeCase(rt *rapid.T, w *chain.World, n *chain.Node, c *harness.Case) feeCase {
-	declared, feeKind, feeOK := feeCoins(rt)
-	if !feeOK {
-		c.Label("fee-below-required")
-		c.NonTrivial()
-	}
+func genFeeCase(rt *rapid.T, w *chain.World, n *chain.Node, c *harness.Case, fm feeModel) feeCase {
 	funded := w.AllFunded()
 	signerKind := rapid.SampledFrom([]string{"single", "single", "singleNoPubKey", "multisig", "multisig", "outputKeyEdit"}).Draw(rt, "signerKind")
 	outIdx := -1
@@ -227,6 +282,19 @@ func genFeeCase(rt *rapid.T, w *chain.World, n *chain.Node, c *harness.Case) fee
 		} else {
 			c.Label("signed-by-output-key")
 		}
+	}
+	// the required fee depends on the message type (auth/FeeMultipliers)
+	required := fm.required("send")
+	if signerKind == "outputKeyEdit" {
+		required = fm.required("stake_validator")
+	}
+	declared, feeKind, feeOK := feeCoins(rt, required)
+	if !feeOK {
+		c.Label("fee-below-required")
+		c.NonTrivial()
+	}
+	if required != requiredFee {
+		c.Label("required-fee-from-fee-table")
 	}
 	sigKind := rapid.SampledFrom([]string{"valid", "valid", "valid", "otherChain", "overOtherFee", "garbage", "wrongKey"}).Draw(rt, "sigKind")
 	memoLen := rapid.SampledFrom([]int{0, 0, 10, 75, 76, 200}).Draw(rt, "memoLen")
@@ -330,9 +398,10 @@ func genFeeCase(rt *rapid.T, w *chain.World, n *chain.Node, c *harness.Case) fee
 		fc.desc = fmt.Sprintf("send %d %s->%s fee=%s(%s) signer=%s sig=%s memo=%d", amt, w.KeyName(k), w.KeyNameAddr(to), feeKind, declared, signerKind, sigKind, memoLen)
 	}
 	fc.declared = declared
+	fc.required = required
 	fc.authOK = authOK
 	fc.multisig = signerKind == "multisig"
 	fc.onlyFeeTooLow = !feeOK && declared.IsValid() && memoOK && sigKind == "valid" && !strings.Contains(fc.desc, "missingOne") && !strings.Contains(fc.desc, "reversed") &&
-		declared.AmountOf(sdk.DefaultStakeDenom).LT(sdk.NewInt(requiredFee)) && len(declared) <= 1
+		declared.AmountOf(sdk.DefaultStakeDenom).LT(sdk.NewInt(required)) && len(declared) <= 1
 	return fc
 }
